@@ -70,6 +70,20 @@ CHECKS = {
         'enumerated. Sampled apart from that enumeration.',
         'CPython re is the matching engine in model and implementation; '
         'str.upper/lower likewise', 'DESIGN.md section 2, C19'),
+    'C17': (
+        'Hypothesis rule-based state machine over context forests compared '
+        'after every step with a flattened-layers reference model',
+        'Stateful generated-input search: histories of root/child/multi/'
+        'linked creation, set, delete, register (exclusive or not) and '
+        'delete_function over up to 12 contexts; after every step every '
+        'context is read back through the public interface (8 variable '
+        'spellings incl. $, $1, empty; 5 function spellings; '
+        'collect_functions with and without predicate) and compared with '
+        'models/ctxmodel.py. Histories shrink as one value and replay from '
+        'JSON. Sampled, bounded by steps and forest size.',
+        'model assumptions listed in the evidence (delete_function clears '
+        'exclusivity; merge semantics of del through a multi-context)',
+        'DESIGN.md section 2, C17'),
     'C03': (
         'exhaustive short token sequences + Hypothesis token soups / '
         'mutations / unicode text against a validity predicate',
